@@ -15,7 +15,7 @@ CHECKS = {
                 "step start are compared with a reference computed from the spec, for fresh detectors, detectors with planted leftovers and detectors "
                 "that already ran other exposures. Mutated (invalid) schedules must raise before any probe runs. Exploration.",
         "design_ref": "DESIGN.md section 3, C02",
-        "note": "Trusted: probe reads through the detector's public properties. NaN schedules and zeros at later positions are outside both the accept and the reject set.",
+        "note": "Written values include non-finite content (nan / inf) for the float buckets. Trusted: probe reads through the detector's public properties. NaN schedules and zeros at later positions are outside both the accept and the reject set.",
     },
     "C03": {
         "technique": "property-based testing: generated writer-probe pipelines with per-step plans and dtypes; result slices, labels, dtypes, scene/data nodes and debug records compared with in-run snapshots; flat-vs-hierarchical and debug-on-vs-off differentials",
@@ -73,7 +73,7 @@ CHECKS = {
                 "reads, removals and resets are applied to detector.charge and to an exact per-pixel accumulator; the reported array must equal the accumulator after every step, "
                 "outside clusters must be credited nowhere and must not crash or corrupt memory. Exploration.",
         "design_ref": "DESIGN.md section 3, C14",
-        "note": "Child processes run with NUMBA_BOUNDSCHECK=1 (sanitizer-style). Only non-negative charge is added.",
+        "note": "Child processes run with NUMBA_BOUNDSCHECK=1 (sanitizer-style). Only non-negative charge is added. Cluster columns are float64 or object-typed (as pyxel's own charge_deposition hands them over; finding F33, fixed).",
     },
     "C18": {
         "technique": "round-trip property-based testing (save -> load) with the harness's own field-by-field comparator over generated detectors and container subsets; in-pipeline differential for the load_detector model",
@@ -106,7 +106,7 @@ CHECKS = {
                 "the reference space and, for each reference run, the result entry selected by that run's labels must hold that run's encoding. Custom tables are generated in txt/csv/npy with "
                 "surrounding columns and optional column_range. Exploration.",
         "design_ref": "DESIGN.md section 3, C05",
-        "note": "Known finding K1 (sequential mode + dask + >=2 parameters) is excluded from the generator and probed separately. The dask path's single metadata run is subtracted.",
+        "note": "Known finding K1 (sequential mode + dask + >=2 parameters) is excluded from the generator and probed separately. The dask path's single metadata run is subtracted. Part 'rerun': the same Observation object is run again after other values were configured on detector / pipeline.",
     },
     "C06": {
         "technique": "differential property-based testing: each run of a generated sweep against a standalone exposure the harness builds from the JSON spec; deep structural before/after snapshots of the caller's objects; pipelines with state-keeping, argument-mutating and failing models",
@@ -156,7 +156,7 @@ CHECKS = {
                 "4 listed as skipped) must be reproducible and state-preserving; generated pipelines of the stochastic library models with a pipeline_seed must give bit-identical result trees in exposure, sequential and dask "
                 "observation and calibration from different prior states, after unseeded or failing runs, and restore the generator also when a model raises; unseeded random models must not re-seed the process. Exploration.",
         "design_ref": "DESIGN.md section 3, C04",
-        "note": "Dask paths on the synchronous scheduler (threaded race = C07's known finding K2). Models without an offline recipe (cosmix, charge_deposition x2, nghxrg) are counted as skipped in evidence. pulse_processing's minutes-long phase conversion is stubbed from outside.",
+        "note": "Dask paths on the synchronous scheduler (threaded race = C07's known finding K2). Every model with a seed argument has a recipe (17 models, 34 option variants incl. charge_deposition with tabulated spectra, cosmix, nghxrg), each option variant taking another random-number path. pulse_processing's minutes-long phase conversion is stubbed from outside.",
     },
     "C07": {
         "technique": "differential property-based testing: with_dask result under generated schedulers (synchronous, thread pools of 1/2/4/16, process pools of 2/4) with data-dependent delays vs the sequential result, compared label by label; harness-owned schedule (barrier) for the known seeding race; calibration outcome differential across schedulers and island-creation modes",
